@@ -436,6 +436,46 @@ def getLocal (s : State) (t : Nat) (k : Nat) : Except Err State :=
   | .error e => .error e
   | .ok n => .ok { s with getLog := s.getLog ++ [(t, k, s.tls t n)] }
 
+/-! ## library shutdown (the end of a history, not an event of the machine)
+
+`p_uthread_init` is the initial state `init`: the library key's wrapper exists (`p_uthread_local_new
+(pp_uthread_cleanup)`), its native key does not yet.  `p_uthread_shutdown`, called by thread `a`:
+`cur_thread = p_uthread_get_local (pp_uthread_specific_data)` (which creates the native key if nobody has used
+the library key so far — no other thread is inside that race at shutdown); `if (cur_thread != NULL)
+{ p_uthread_unref (cur_thread); p_uthread_set_local (key, NULL); }`; `p_uthread_local_free (key)` — since the
+repair of F12 this deletes the native key and frees its block; the creation spinlock is freed.  Nothing of the
+thread API may be used afterwards, so the machine does not continue from the resulting state. -/
+
+/-- the library key resolved by the single thread that shuts the library down -/
+def shutdownResolve (s : State) : State × Nat :=
+  match (s.key 0).published with
+  | some n => (s, n)
+  | none =>
+    ({ s with
+        nN := s.nN + 1
+        nkey := upd s.nkey s.nN { owner := 0, dtor := (s.key 0).notifier, live := true }
+        key := upd s.key 0 { s.key 0 with published := some s.nN } }, s.nN)
+
+def shutdown (s : State) (a : Nat) : Except Err State :=
+  if ¬ canAct s a then .error .notEnabled else
+  if (s.key 0).wrapperFreed then .error (.keyUseAfterFree 0) else
+  let r := shutdownResolve s
+  let s1 := r.1
+  let n := r.2
+  match (if s1.tls a n ≠ 0 then
+          (match unrefCore s1 (s1.tls a n - 1) true with
+           | .ok s2 => Except.ok { s2 with tls := upd2 s2.tls a n 0 }
+           | .error e => .error e)
+         else .ok s1) with
+  | .error e => .error e
+  | .ok s3 =>
+    .ok { s3 with
+      nkey := upd s3.nkey n { s3.nkey n with
+        live := (s3.nkey n).live && !localFreeDeletesKey, blockFreed := (s3.nkey n).blockFreed || localFreeFreesBlock }
+      keyDelLog := s3.keyDelLog ++ (if localFreeDeletesKey then [n] else [])
+      blockFreeLog := s3.blockFreeLog ++ (if localFreeFreesBlock then [n] else [])
+      key := upd s3.key 0 { s3.key 0 with wrapperFreed := true } }
+
 /-! ## the machine -/
 
 def step (s : State) : Ev → Except Err State
